@@ -105,6 +105,7 @@ package jd
 //@   loop "range aCounts #2" invariant forallInt(0, len(aHashes), func(i int) bool { return mapHas(aMap, aHashes[i]) })
 //@   loop "for i < aCounts[hc]" invariant forallInt(0, len(aHashes), func(i int) bool { return mapHas(aMap, aHashes[i]) })
 //@   loop "range aHashes" invariant validNodes(newValue)
+//@   carries C08 C13
 
 //@ contract patchAll
 //@   requires validNode(n) && validDiff(d)
@@ -227,6 +228,7 @@ package jd
 //@   loop "for i < removed" invariant validHunk(e)
 //@   loop "range a2Hashes" invariant validHunk(e)
 //@   loop "for i < added" invariant validHunk(e)
+//@   carries C08 C13
 
 // ---------------------------------------------------------------------
 // Rendering (C15 frames: none of these may write to the diff they are given).
@@ -528,3 +530,20 @@ package jd
 //@   requires validNode(n) && !isVoid(n)
 //@   ensures_bounded ret0
 //@   carries C16
+
+//@ contract verifSetSemantics
+//@   bounded
+//@   universe a verifConvArr(verifSmallArrays(3))
+//@   universe b verifConvArr(verifSmallArrays(3))
+//@   universe c verifConvArr(verifSmallArrays(3))
+//@   universe options [][]Option{{SET}, {MULTISET}}
+//@   ensures_bounded ret0
+//@   carries C08
+
+//@ contract verifSetPatchNonArray
+//@   bounded
+//@   universe n verifNodes(0)
+//@   universe e verifHunks(0)
+//@   requires validNode(n) && validHunk(e)
+//@   ensures_bounded ret0
+//@   carries C08
